@@ -51,6 +51,7 @@ def check(ctx) -> None:
     r36(ctx)
     r37(ctx)
     r38(ctx)
+    r39(ctx)
 
 
 def _transform_calls(f, tainted: set[str]):
@@ -635,3 +636,60 @@ def r38(ctx) -> None:
     if n < 3:
         raise AnchorError(f'only {n} single-part structure constructors '
                           f'found in _get_body_structure')
+
+
+def r39(ctx) -> None:
+    """The maildir backend reads the message file only when the combined
+    requirement of the FETCH items has a content bit.  An item whose value is
+    computed from the loaded message (the `_loaded_attrs` table of fetch.py)
+    but which declares METADATA is answered from nothing: RFC822.SIZE 0,
+    empty bodies."""
+    R = ctx.rule('R3.9', 'fetch items answered from the loaded message never '
+                 'declare a metadata-only requirement', 1)
+    fa = ctx.proj.cls('pymap/parsing/specials/fetchattr.py', 'FetchAttribute')
+    req = fa.own_method('requirement')
+    if req is None:
+        raise AnchorError('FetchAttribute.requirement vanished')
+    ma = ctx.proj.cls('pymap/fetch.py', 'MessageAttributes')
+    tables = {}
+    for nm, v in ma.class_assigns().items():
+        if isinstance(v, ast.Dict) and v.keys and all(
+                isinstance(k, ast.Constant) and isinstance(k.value, bytes)
+                for k in v.keys):
+            tables[nm] = {k.value for k in v.keys}
+    loaded = set()
+    for nm, ks in tables.items():
+        if 'loaded' in nm:
+            loaded |= ks
+    if len(loaded) < 8:
+        raise AnchorError(f'fetch.py: table of loaded-message items not '
+                          f'found (tables {sorted(tables)})')
+    cfg = cfg_of(req)
+    meta = set()
+    n = 0
+    for node in cfg.find(lambda n_: isinstance(n_.stmt, ast.Return)):
+        if 'METADATA' not in txt(node.stmt.value):
+            continue
+        n += 1
+        # attribute names under which this return runs
+        for t in cfg.nodes:
+            if t.kind != 'test' or not cfg.controlled_by(node, t, 't'):
+                continue
+            for c in ast.walk(t.stmt.test):
+                if isinstance(c, ast.Compare) and len(c.ops) == 1 and \
+                        isinstance(c.ops[0], (ast.In, ast.Eq)):
+                    ok, v = const_value(c.comparators[0])
+                    if ok:
+                        meta |= set(v) if isinstance(
+                            v, (tuple, list, set, frozenset)) else {v}
+    if n == 0:
+        R.ok(req, req.node, 'no metadata-only branch', 'nothing to check')
+        return
+    bad = sorted(x.decode() for x in meta & loaded)
+    R.check(not bad, req, req.node,
+            'requirement: METADATA only for items computed without content',
+            f'{bad} are answered from the loaded message (fetch.py '
+            f'_loaded_attrs) but declare FetchRequirement.METADATA: on the '
+            f'maildir backend `FETCH 1 (UID RFC822.SIZE)` does not read the '
+            f'file and answers RFC822.SIZE 0 while BODY[] returns all '
+            f'octets', f'metadata-only: {sorted(x.decode() for x in meta)}')
